@@ -2,7 +2,7 @@
 From Coq Require Import List NArith ZArith Bool Arith String.
 Import ListNotations.
 Require Import Scan Pos DQ SQ.
-Require Emit EmitGrows EmitLemmas EmitPrefix EmitSafe.
+Require Emit EmitGrows EmitLemmas EmitPrefix EmitSafe EmitSQ Plain EmitPlain AnalysisPlain.
 
 (* KIND C05_double_quoted_scalar_roundtrip : U *)
 (* for EVERY text t over printable ASCII (spaces, apostrophes included), the 15 single-letter escapes and \xHH code points,
@@ -59,6 +59,36 @@ Example C05_emitter_total_nonvacuous :
   fst (Emit.emit_all [Emit.EStreamStart; Emit.EDocStart false None []; Emit.EScalar None None true false [97%N] None; Emit.EDocEnd false; Emit.EStreamEnd] s0)
     = [[97%N]; [10%N]; [46%N; 46%N; 46%N]; [10%N]].
 Proof. exact EmitSafe.crash_is_possible. Qed.
+
+(* KIND C05_plain_scalar_roundtrip : U *)
+(* the plain style (the dumper's first choice): EVERY one-line text made of words (no blank character, a colon never followed by a blank, no leading '#')
+   separated by runs of spaces, in block context at a column inside the current indentation, followed by the end of the input or by a line feed and the
+   end of the input: scan_plain returns a plain scalar token with exactly that text (Proofs/Plain.v) *)
+Theorem C05_plain_scalar_roundtrip : forall x t r s, Plain.plainok x t -> rest s = (t ++ x :: r)%list -> Plain.ender x r -> flow_level s = 0%Z ->
+  (indent s + 1 <= Z.of_nat (col s))%Z ->
+  exists tok s', scan_plain s = Ok (tok, s') /\ t_kind tok = TScalar t true SPlain /\ rest s' = Plain.after x r.
+Proof. exact Plain.plain_roundtrip. Qed.
+Eval vm_compute in "ASSUME:C05_plain_scalar_roundtrip"%string. Print Assumptions C05_plain_scalar_roundtrip.
+(* KIND C05_plain_emit_then_scan : U *)
+(* emitter model and scanner model TOGETHER for the plain style: for every such text and every emitter state standing after whitespace,
+   write_plain (no folding) writes the text itself, and the scanner reads it back as exactly that text *)
+Theorem C05_plain_emit_then_scan : forall x text r s, Plain.plainok x text -> Plain.ender x r -> Emit.whitespace s = true ->
+  exists s', Emit.write_plain text false s = Emit.Ok (tt, s') /\ EmitSQ.otext s' = (EmitSQ.otext s ++ text)%list /\
+    forall sc, rest sc = (text ++ x :: r)%list -> flow_level sc = 0%Z -> (indent sc + 1 <= Z.of_nat (col sc))%Z ->
+      exists tok sc', scan_plain sc = Ok (tok, sc') /\ t_kind tok = TScalar text true SPlain /\ rest sc' = Plain.after x r.
+Proof. exact EmitPlain.plain_emit_then_scan. Qed.
+Eval vm_compute in "ASSUME:C05_plain_emit_then_scan"%string. Print Assumptions C05_plain_emit_then_scan.
+(* KIND C05_analysed_plain_emit_then_scan : U *)
+(* three cooperating sites: EVERY non-empty text for which the emitter's analyze_scalar allows the plain style in block context (any allow_unicode
+   setting) is such a text of words and runs of spaces (Proofs/AnalysisPlain.v: an invariant of the analysis loop over every character); so what
+   the style choice lets write_plain write, scan_plain reads back *)
+Theorem C05_analysed_plain_emit_then_scan : forall au text x r s, text <> [] -> Emit.a_block_plain (Emit.analyze_scalar au text) = true -> Plain.ender x r ->
+  Emit.whitespace s = true ->
+  exists s', Emit.write_plain text false s = Emit.Ok (tt, s') /\ EmitSQ.otext s' = (EmitSQ.otext s ++ text)%list /\
+    forall sc, rest sc = (text ++ x :: r)%list -> flow_level sc = 0%Z -> (indent sc + 1 <= Z.of_nat (col sc))%Z ->
+      exists tok sc', scan_plain sc = Ok (tok, sc') /\ t_kind tok = TScalar text true SPlain /\ rest sc' = Plain.after x r.
+Proof. exact AnalysisPlain.analysed_plain_emit_then_scan. Qed.
+Eval vm_compute in "ASSUME:C05_analysed_plain_emit_then_scan"%string. Print Assumptions C05_analysed_plain_emit_then_scan.
 
 (* PARTIAL (FULL: forall v opts, load (dump v opts) ~ v): only the double-quoted scalar layer (the universal fallback style)
    without folding is a theorem.  Value<->node, node<->event and the other four scalar styles are decided by the
